@@ -47,3 +47,13 @@ Example C07_atomic_instance :
   forall N M k, (0 < k)%nat -> (k <= M)%nat -> forall cevs i, Forall (UniCancel.wf_ev k) cevs -> (i < k)%nat ->
     ~ UniCancel.stuck_cancelled st k (ua_run N M k cevs) i.
 Proof. intros N M k Hk HM cevs i. exact (C07_cancel_terminates_whatever_the_queue st (stepZ N) start ring_idle log M k (wake_rule_atomic M) Hk HM init cevs i). Qed.
+
+(* ---- the crossbeam Uni channel machine (Chan/ChanXb.v, in lock-step with uni/channels/movable/crossbeam.rs; proof in Chan/ChanXbCancel.v:
+   the layered machine is viewed as a base-machine state and UniCancel's invariant is reused): after cancel_all_streams a targeted stream is
+   never left parked un-notified with its keep flag cleared - every interleaving, any number of producers (send / send_with) and cancellers ---- *)
+From RM Require Import ChanXb ChanXbCancel.
+Theorem C07_crossbeam_cancel_terminates :
+  forall N M k, (0 < k)%nat -> (k <= M)%nat -> forall evs i, Forall (wf_bev k) evs -> (i < k)%nat ->
+    ~ stuck_cancelled_xb k (fold_left (bxexec N M k) evs (bxinit k)) i.
+Proof. exact xb_cancel_terminates. Qed.
+Print Assumptions C07_crossbeam_cancel_terminates.
